@@ -54,6 +54,17 @@ META["C05"] = dict(
     abstracted=["DataSet.__init__ validation prologue", "uuid4/basename/splitext are opaque"],
 )
 
+META["C04"] = dict(
+    level="proof",
+    technique="exception-freedom and termination obligations at every raising primitive of the real Tokenizer and Parser (VCs from the AST: array windows, character codes, token kinds; loop invariants + variants; recursion by contract) discharged by z3/cvc5; exhaustive lexical-atom sequences and mutations as labelled bounded stand-in",
+    level_text="Tokenizer: for every input state, every exit of main_loop either consumed at least one character (variant) or raised UnexpectedCharacter/ValueError; no `x in <str>` with x None, no IndexError/KeyError, every scanning loop terminates. Parser: see level_note. Acceptance => well-formed circuit and re-acceptance of the serialisation are explored by the bounded layer.",
+    level_note="characters as integer codes, tokens as kind codes; Identifier.__post_init__ and float(text) may raise ValueError (an allowed class) and are otherwise opaque; call stack unbounded (RecursionError is only visible to the bounded layer)",
+    explanation="Obligations from Tokenizer.{main_loop, identifier_or_label, number, peek, pop, consume, accept, ignore, push, process} (helpers inlined) and the Parser methods under contracts/parser.py. Bounded: every sequence of <= N lexical atoms, grammar-derived codes with single-character mutations, deep nesting.",
+    trusted_base=["string constants of the `string` module", "Token dataclasses construct without error except Identifier.__post_init__"],
+    assumptions=COMMON_ASSUME,
+    abstracted=["token start/end positions and text values (only kinds are tracked)", "exception message f-strings"],
+)
+
 NOT_BUILT = "check not built yet in this session (planned, see DESIGN.md section 3)"
 NOT_APPLICABLE = {
     "C10": "statistical calibration over an RNG distribution and heuristic optimisers: no pre/postcondition within reach of a deductive verifier implies it (DESIGN.md C10); sampling would be a different technique family",
@@ -63,4 +74,4 @@ for _p in ["C%02d" % i for i in range(1, 21)]:
     if _p not in META and _p not in NOT_APPLICABLE:
         NOT_APPLICABLE[_p] = NOT_BUILT
 
-FIX_COMMITS = ["0098309", "82df5c9", "ded46ec", "756923f", "8a458bc"]
+FIX_COMMITS = ["0098309", "82df5c9", "ded46ec", "756923f", "8a458bc", "a72c860"]
